@@ -46,7 +46,13 @@ type DumpOptions struct {
 	Tables []string
 	// KeepRows keeps the rows (otherwise only hashes are kept).
 	KeepRows bool
+	// Exclude lists additional columns to leave out, as "table.column" (used when the compared
+	// chains legitimately differ in block layout: entry positions, entry block key MRs).
+	Exclude []string
 }
+
+// LayoutColumns are the columns that describe where in a block an entry sat, not what it did.
+var LayoutColumns = []string{"pn_history_txbatch.blockorder", "pn_transaction_batch_holding.eblock_keymr", "pn_grade.keymr", "pn_grade.count"}
 
 func renderVal(v interface{}) string {
 	switch x := v.(type) {
@@ -94,6 +100,10 @@ func TakeDump(db *sql.DB, opt DumpOptions) (*Dump, error) {
 	}
 	defer tx.Rollback()
 	total := sha256.New()
+	extra := map[string]bool{}
+	for _, x := range opt.Exclude {
+		extra[x] = true
+	}
 	for _, t := range tables {
 		rows, err := tx.Query("SELECT * FROM " + t)
 		if err != nil {
@@ -114,7 +124,7 @@ func TakeDump(db *sql.DB, opt DumpOptions) (*Dump, error) {
 			var sb strings.Builder
 			skip := false
 			for i, c := range cols {
-				if excludedCols[t][c] {
+				if excludedCols[t][c] || extra[t+"."+c] {
 					continue
 				}
 				if opt.DropBackfill && t == "pn_sync_version" && c == "version" {
